@@ -171,6 +171,11 @@ func runC12From(c c12Case, shared bool, from int) (c12Obs, error) {
 		}
 		Call{API: "json", Doc: BS(witnessDoc), Form: "string"}.invoke(cfg, wt)
 		Call{API: "sjson", Doc: BS(witnessDoc), Form: "bytes"}.invoke(cfg, wt)
+		// ... and a Config built right now from nothing but a directory: it gets the package defaults for everything else,
+		// whatever options other Configs were given or had applied to them
+		plain := CfgSpec{Dir: "plain"}.build(root)
+		Call{API: "snap", Vals: []Val{strVal("through a Config with default name and extension")}}.invoke(plain, wt)
+		Call{API: "sjson", Doc: BS(witnessDoc), Form: "string"}.invoke(plain, wt)
 		wt.finish()
 	}
 	if from == 0 {
